@@ -150,6 +150,9 @@ class _Watchdog(Exception):
     pass
 
 
+_HUNG = False
+
+
 def _alarm(*_):
     raise _Watchdog()
 
@@ -159,20 +162,29 @@ def run_path(job):
     time of this worker, not wall-clock time: a busy machine must not look like a program that does not terminate)"""
     import signal
     from ..core import preload
+    global _HUNG
+    if _HUNG:                       # this worker already reported a program that does not terminate: bounded waits, then skip
+        return 0, None
     preload()                       # imports are not part of the call under test (see core.preload)
     signal.signal(signal.SIGPROF, _alarm)
-    signal.setitimer(signal.ITIMER_PROF, 120)
+    signal.setitimer(signal.ITIMER_PROF, 60)
     import time as _t
     _c0 = _t.process_time()
     try:
         try:
-            return _run_path(job)
+            try:
+                return _run_path(job)
+            except _Watchdog:
+                # a program that does not terminate does so every time: the verdict needs the watchdog to fire twice
+                signal.setitimer(signal.ITIMER_PROF, 120)
+                return _run_path(job)
         except _Watchdog:
             raise
         except Exception as ex:      # noqa - raised while results were being compared: a verdict, not a harness error
             return 0, {"step": -1, "op": {"op": "?"}, "what": f"the results cannot be examined: {type(ex).__name__}: {ex}", "fid": None}
     except _Watchdog:
-        return 0, {"step": -1, "op": {"op": "?"}, "what": "program did not terminate within 120 s of processor time", "fid": None}
+        _HUNG = True
+        return 0, {"step": -1, "op": {"op": "?"}, "what": "program did not terminate within 120 s of processor time (twice)", "fid": None}
     finally:
         signal.setitimer(signal.ITIMER_PROF, 0)
         if os.environ.get("C06_TIMING") and _t.process_time() - _c0 > 1.0:
